@@ -1,6 +1,163 @@
 import Toq.Model.Perms
-import Toq.Proofs.Idx
+import Toq.Proofs.Perms
+import Mathlib.Algebra.Group.Defs
+import Mathlib.Algebra.Ring.Defs
+/-!
+# C01 — subsystem permutation is exactly tensor-factor relabelling
+
+Property theorems only (helper lemmas live in `Toq/Proofs/Perms.lean`).  The mirror model
+`Toq.Perms.permuteVec` follows `toqito/perms/permute_systems.py` line by line (F-order reshape to the
+reversed dims, `np.transpose` by `n-1-perm[::-1]` or its `argsort`, F-order flatten); the theorems
+say that for every number of subsystems, every dimension vector and every permutation this is the
+relabelling of tensor factors.
+-/
 namespace Toq.C01
-theorem placeholder_enc_dec (d : Nat → Nat) (n i : Nat) (h : i < prodN d n) : enc d (dec d n i) n = i :=
-  enc_dec d n i h
+open Toq.Perms
+
+/-- `perm` is a permutation of `0..n-1` (what `sorted(perm) == list(range(n))` checks) -/
+structure IsPermN (n : Nat) (p : Nat → Nat) : Prop where
+  lt : ∀ k, k < n → p k < n
+  inj : ∀ a b, a < n → b < n → p a = p b → a = b
+
+/-- the executable guard used by the driver decides `IsPermN` -/
+theorem isPerm_iff (n : Nat) (p : Nat → Nat) : isPerm n p = true ↔ IsPermN n p := by
+  unfold isPerm
+  rw [Bool.and_eq_true, allBelow_iff, allBelow_iff]
+  simp only [anyBelow_iff, beq_iff_eq, decide_eq_true_eq]
+  constructor
+  · rintro ⟨hs, hl⟩
+    exact ⟨hl, inj_of_surj n p hl hs⟩
+  · rintro ⟨hl, hi⟩
+    exact ⟨surj_of_inj n p hl hi, hl⟩
+
+/-- the model output at `j` is the input at the index whose `k`-th digit (radices `dims`) is the
+    `perm⁻¹ k`-th digit of `j` (radices `dims ∘ perm`) -/
+theorem permuteVec_eq_spec {α : Type} (v : Nat → α) (n : Nat) (perm dims : Nat → Nat)
+    (hp : IsPermN n perm) (hd : ∀ k, k < n → 0 < dims k) (j : Nat)
+    (hj : j < prodN (fun m => dims (perm m)) n) :
+    permuteVec v n perm dims false j = v (specIndex n perm dims j) := by
+  exact permuteVec_false_eq v n perm dims hp.lt hp.inj j
+
+/-- the inverse option is the forward call with the inverse permutation -/
+theorem permuteVec_inv_eq_spec {α : Type} (v : Nat → α) (n : Nat) (perm dims : Nat → Nat)
+    (hp : IsPermN n perm) (hd : ∀ k, k < n → 0 < dims k) (j : Nat)
+    (hj : j < prodN (fun m => dims (invPerm n perm m)) n) :
+    permuteVec v n perm dims true j = v (specIndex n (invPerm n perm) dims j) := by
+  exact permuteVec_true_eq v n perm dims hp.lt hp.inj j
+
+/-- **Relabelling**: the factor at position `perm i` moves to position `i`.  For every digit vector `y`
+    (valid for the permuted radices), output entry `y` is input entry `y ∘ perm⁻¹`. -/
+theorem permuteVec_relabel {α : Type} (v : Nat → α) (n : Nat) (perm dims y : Nat → Nat)
+    (hp : IsPermN n perm) (hd : ∀ k, k < n → 0 < dims k) (hy : ∀ k, k < n → y k < dims (perm k)) :
+    permuteVec v n perm dims false (enc (fun m => dims (perm m)) y n)
+      = v (enc dims (fun k => y (invPerm n perm k)) n) := by
+  rw [permuteVec_false_eq v n perm dims hp.lt hp.inj]
+  congr 1
+  unfold specIndex
+  apply enc_congr _ _ _ _ _ (fun _ _ => rfl)
+  intro k hk
+  exact dec_enc (fun m => dims (perm m)) y n hy _ (invPerm_lt n perm hp.lt hp.inj k hk)
+
+/-- entry `j` of `a 0 ⊗ a 1 ⊗ … ⊗ a (n-1)` where `a k` has length `dims k` -/
+def kronVec {α : Type} [Mul α] [One α] (n : Nat) (a : Nat → Nat → α) (dims : Nat → Nat) (j : Nat) : α :=
+  prodFn n (fun k => a k (dec dims n j k))
+
+/-- **Product vectors**: `A_0 ⊗ … ⊗ A_{n-1}` becomes `A_{p 0} ⊗ … ⊗ A_{p (n-1)}`
+    (over any commutative monoid of scalars). -/
+theorem permute_kronVec {α : Type} [CommMonoid α] (n : Nat) (a : Nat → Nat → α) (perm dims : Nat → Nat)
+    (hp : IsPermN n perm) (hd : ∀ k, k < n → 0 < dims k) (j : Nat)
+    (hj : j < prodN (fun m => dims (perm m)) n) :
+    permuteVec (kronVec n a dims) n perm dims false j
+      = kronVec n (fun k => a (perm k)) (fun m => dims (perm m)) j := by
+  rw [permuteVec_false_eq _ n perm dims hp.lt hp.inj]
+  unfold kronVec
+  rw [← prodFn_reindex n perm (fun k => a k (dec dims n (specIndex n perm dims j) k)) hp.lt hp.inj]
+  apply prodFn_congr
+  intro k hk
+  show a (perm k) (dec dims n (specIndex n perm dims j) (perm k)) = _
+  rw [dec_specIndex n perm dims hp.lt hp.inj hd j (perm k) (hp.lt k hk),
+    invPerm_perm n perm hp.inj k hk]
+
+/-- **Inverse option** undoes the forward call when given the permuted dimensions. -/
+theorem permute_inv_undoes {α : Type} (v : Nat → α) (n : Nat) (perm dims : Nat → Nat)
+    (hp : IsPermN n perm) (hd : ∀ k, k < n → 0 < dims k) (j : Nat) (hj : j < prodN dims n) :
+    permuteVec (permuteVec v n perm dims false) n perm (fun m => dims (perm m)) true j = v j := by
+  have hq_lt := invPerm_lt n perm hp.lt hp.inj
+  have hq_inj := invPerm_inj n perm hp.lt hp.inj
+  have hd' : ∀ k, k < n → 0 < (fun m => dims (perm m)) k := fun k hk => hd _ (hp.lt k hk)
+  rw [permuteVec_true_eq _ n perm _ hp.lt hp.inj, permuteVec_false_eq v n perm dims hp.lt hp.inj]
+  congr 1
+  have e : specIndex n perm dims (specIndex n (invPerm n perm) (fun m => dims (perm m)) j)
+      = enc dims (dec dims n j) n := by
+    unfold specIndex
+    apply enc_congr _ _ _ _ _ (fun _ _ => rfl)
+    intro k hk
+    have h1 := dec_specIndex n (invPerm n perm) (fun m => dims (perm m)) hq_lt hq_inj hd' j
+      (invPerm n perm k) (hq_lt k hk)
+    unfold specIndex at h1
+    rw [h1, invPerm_perm n (invPerm n perm) hq_inj k hk]
+    apply dec_congr
+    intro m hm
+    show dims (perm (invPerm n perm m)) = dims m
+    rw [perm_invPerm n perm hp.lt hp.inj m hm]
+  rw [e, enc_dec dims n j hj]
+
+/-- the index map is a bijection of `0..N-1` (so the permutation operator is a permutation matrix):
+    it maps into range and has the inverse-flag map as two-sided inverse -/
+theorem permIndex_lt (n : Nat) (perm dims : Nat → Nat) (hp : IsPermN n perm)
+    (hd : ∀ k, k < n → 0 < dims k) (j : Nat) (hj : j < prodN (fun m => dims (perm m)) n) :
+    permIndex n perm dims false j < prodN dims n := by
+  unfold permIndex
+  rw [permuteVec_false_eq _ n perm dims hp.lt hp.inj]
+  exact specIndex_lt n perm dims hp.lt hp.inj hd j
+
+/-- **Matrices**: rows and columns are relabelled independently (separate row/column dims, row-only
+    and inverse flags). -/
+theorem permuteMat_eq_spec {α : Type} (X : Nat → Nat → α) (n : Nat) (perm rd cd : Nat → Nat)
+    (hp : IsPermN n perm) (hr : ∀ k, k < n → 0 < rd k) (hc : ∀ k, k < n → 0 < cd k) (i j : Nat)
+    (hi : i < prodN (fun m => rd (perm m)) n) (hj : j < prodN (fun m => cd (perm m)) n) (rowOnly : Bool) :
+    permuteMat X n perm rd cd rowOnly false i j
+      = X (specIndex n perm rd i) (if rowOnly then j else specIndex n perm cd j) := by
+  unfold permuteMat permIndex
+  rw [permuteVec_false_eq _ n perm rd hp.lt hp.inj, permuteVec_false_eq _ n perm cd hp.lt hp.inj]
+
+/-- **Row-only** = left multiplication by the permutation operator. -/
+theorem rowOnly_eq_permOp_mul {α : Type} [Semiring α] (X : Nat → Nat → α) (n : Nat)
+    (perm rd cd : Nat → Nat) (inv : Bool) (hp : IsPermN n perm) (hr : ∀ k, k < n → 0 < rd k) (i j : Nat)
+    (hi : i < prodN rd n) :
+    permuteMat X n perm rd cd true inv i j
+      = sumN (prodN rd n) (fun k => permOp (α := α) n perm rd inv i k * X k j) := by
+  have hc : permIndex n perm rd inv i < prodN rd n := by
+    unfold permIndex
+    cases inv
+    · rw [permuteVec_false_eq _ n perm rd hp.lt hp.inj]
+      exact specIndex_lt n perm rd hp.lt hp.inj hr i
+    · rw [permuteVec_true_eq _ n perm rd hp.lt hp.inj]
+      exact specIndex_lt n (invPerm n perm) rd (invPerm_lt n perm hp.lt hp.inj)
+        (invPerm_inj n perm hp.lt hp.inj) hr i
+  unfold permOp permuteMat
+  simp only [if_true]
+  rw [sumN_ite_mul_of_lt (fun k => X k j) _ _ hc]
+
+/-- **Swap** is the transposition special case: `swapPerm` is a permutation, its own inverse. -/
+theorem swapPerm_isPerm (n s1 s2 : Nat) (h1 : s1 < n) (h2 : s2 < n) : IsPermN n (swapPerm s1 s2) := by
+  constructor
+  · intro k hk; unfold swapPerm; split
+    · exact h2
+    · split
+      · exact h1
+      · exact hk
+  · intro a b _ _ hab; unfold swapPerm at hab
+    split at hab <;> split at hab <;> (try split at hab) <;> (try split at hab) <;> omega
+
+theorem swapPerm_involutive (s1 s2 k : Nat) : swapPerm s1 s2 (swapPerm s1 s2 k) = k := by
+  unfold swapPerm
+  split <;> split <;> (try split) <;> omega
+
+/-- non-vacuity: the hypotheses are met by `dims = [2,3,2]`, `perm = [1,2,0]`, and the model
+    computes the relabelling there -/
+example : isPerm 3 (fnOfList [1, 2, 0]) = true ∧
+    listOfFn 12 (permIndex 3 (fnOfList [1, 2, 0]) (fnOfList [2, 3, 2]) false)
+      = [0, 6, 1, 7, 2, 8, 3, 9, 4, 10, 5, 11] := by decide
+
 end Toq.C01
